@@ -32,7 +32,7 @@ import ast
 from ..dataflow import is_shared
 from ..lifecycle import Lifecycle
 from ..repo import AnalysisError, FuncInfo, own_nodes
-from .common import reorder_ops, source_pos
+from .common import reorder_ops, source_pos, step_of
 
 MANIFEST = {
     "text": (
@@ -531,6 +531,8 @@ def _numbering(ctx, soa):
             order.append(("store", st.targets[0].attr, st))
         elif isinstance(st, ast.AugAssign):
             order.append(("inc", ast.unparse(st.target), st))
+        elif isinstance(st, ast.Assign) and isinstance(st.targets[0], ast.Name) and step_of(ctx, soa, st, st.targets[0].id) is not None:
+            order.append(("inc", st.targets[0].id, st))  # x = x + k
     ok = True
     if stores.get("job_id") != ji:
         ok = False
@@ -575,7 +577,7 @@ def _numbering(ctx, soa):
     if not (cnt and init and isinstance(init[0].value, ast.Constant) and init[0].value.value == 0):
         ok = False
         chk.violation("R14.d", soa, init[0] if init else None, "operation ids do not start at 0")
-    elif len(incs) != 1 or not (isinstance(incs[0][2].op, ast.Add) and isinstance(incs[0][2].value, ast.Constant) and incs[0][2].value.value == 1):
+    elif len(incs) != 1 or step_of(ctx, soa, incs[0][2], cnt) != 1:
         ok = False
         chk.violation("R14.d", soa, incs[0][2] if incs else None, "the operation id counter does not grow by exactly one per operation: ids are not dense")
     else:
